@@ -16,6 +16,7 @@ from __future__ import annotations
 import json
 import os
 import random
+import re
 import subprocess
 
 from vlib import core, rel
@@ -47,6 +48,8 @@ SIG_HIJACK = "C13/user-cte-named-like-registered-view-is-hijacked"
 SIG_CAPTURE = "C13/user-cte-name-captures-cte-embedded-in-view-chain"
 SIG_STAR = "C13/select-star-over-uncached-table-keeps-star-column"
 SIG_DUPCTE = "C13/identical-select-texts-in-one-query-give-duplicate-cte-name"
+SIG_ALIAS = "C13/column-alias-equal-to-a-cte-name-is-renamed-to-the-cte-hash"
+SIG_SELFREF = "C13/view-shadowing-the-table-it-reads-is-spliced-into-its-own-chain"
 SIG_UNRESOLVED = "C13/unqualified-column-over-uncached-table-unresolvable-once-schema-cache-nonempty"
 
 
@@ -231,8 +234,8 @@ class HGen:
 
     def new(self):
         r = self.r
-        self.heap = [{"cols": dict(zip(f["cols"], f["types"])), "ok": True, "embedded": set(), "star": False, "taint": None}
-                     for f in BASE["frames"]]
+        self.heap = [{"cols": dict(zip(f["cols"], f["types"])), "ok": True, "embedded": set(), "star": False, "taint": None,
+                      "reads": set()} for f in BASE["frames"]]
         self.views = {}          # key -> {"cols", "embedded", "star", "taint"}
         self.cache = {}          # key -> column names in the schema cache (add-if-absent)
         self.keys = r.choice([["v", "w", "u"]] * 8 + [["v", "w", "bt"], ["v", "bt", "u"]])
@@ -323,7 +326,7 @@ class HGen:
         items, out = [], {}
         for qn in names[: r.randint(1, min(3, len(names)))]:
             base = qn.split(".")[1]
-            alias = base if base not in out else base + "2"
+            alias = base if base not in out else base + "_2"
             if alias in out:
                 continue
             items.append((("col", qn), alias))
@@ -413,28 +416,31 @@ class HGen:
 
     # -- shape flags of a query against the current state (what the known-finding signatures are made of)
     def classify_sql(self, q):
+        """every known-finding shape the query has against the current state, most specific first"""
+        cands = []
         cte_names = [n.lower() for n, _ in q["ctes"]]
-        ctes = {n.lower(): b for n, b in reversed(q["ctes"])}
+        order = cte_names
         refs = [n.lower() for _, b in q["ctes"] for n in sq_names(b)] + [n.lower() for n in sq_names(q["main"])]
         view_refs = [n for n in refs if n in self.views]
         real_view_refs = [n for n in view_refs if n not in cte_names]
         if any(n in cte_names for n in view_refs):
-            return SIG_HIJACK
+            cands.append(SIG_HIJACK)
         for n in real_view_refs:
             if any(c in self.views[n]["embedded"] for c in cte_names):
-                return SIG_CAPTURE
+                cands.append(SIG_CAPTURE)
+        for n in real_view_refs:
+            if n in BASE["tables"] and n in self.views[n]["reads"]:
+                cands.append(SIG_SELFREF)
         for n in real_view_refs:
             if self.cache.get(n) and self.cache[n] != list(self.views[n]["cols"]):
-                return SIG_STALE
+                cands.append(SIG_STALE)
         for n in real_view_refs:
             if self.views[n]["taint"]:
-                return self.views[n]["taint"]
+                cands.append(self.views[n]["taint"])
 
         # what sqlglot's qualify can know about the columns of a source
-        order = [n.lower() for n, _ in q["ctes"]]
-
         def info(n, depth=0):
-            # a CTE body sees the CTEs defined before it; `depth` = how many CTEs of the list are visible
+            # a CTE body sees the CTEs defined before it; `depth` = how many CTEs at the end of the list are not visible
             vis = order[: len(order) - depth] if depth else order
             if n in vis:
                 k = max(i for i, m in enumerate(order) if m == n and i < len(vis))
@@ -456,32 +462,41 @@ class HGen:
             a, b = from_cols(f[1], depth), from_cols(f[3], depth)
             return None if a is None or b is None else [f[2] + "." + c for c in a] + [f[4] + "." + c for c in b]
 
-        def unresolved(sq):
+        def unresolved(sq, depth=0):
             f = sq[1]
             if sq[0] == "sel":
                 refs_ = [c for x in sq[2] for c in rel.e_cols(x)] + [c for e, _ in (sq[3] or []) for c in rel.e_cols(e)]
             else:
                 refs_ = [c for x in sq[2] for c in rel.e_cols(x)] + [c for c, _ in sq[3]] + [c for fn, c, _ in sq[4] if fn == "sum"]
-            here = f[0] in ("name", "sub") and from_cols(f) is None and bool(refs_)
+            here = f[0] in ("name", "sub") and from_cols(f, depth) is None and bool(refs_)
             inner = [f[1]] if f[0] == "sub" else [x[1] for x in (f[1], f[3]) if x[0] == "sub"] if f[0] == "join" else []
-            return here or any(unresolved(i) for i in inner)
+            return here or any(unresolved(i, depth) for i in inner)
 
-        texts = [sq_sql(b).lower() for _, b in q["ctes"]] + [sq_sql(q["main"]).lower()]
-        if len(set(texts)) < len(texts):
-            return SIG_DUPCTE
-        names_real = [n for n in refs if n not in cte_names and n not in self.views and n in BASE["tables"]]
-        if self.cache and names_real and (unresolved(q["main"]) or any(unresolved(b) for _, b in q["ctes"])):
-            return SIG_UNRESOLVED
-
-        # `SELECT *` directly over a real table the schema cache does not know
-        def star_over_uncached(sq):
+        def canon(sq, depth):
+            # the text after qualify: `*` over a source with known columns is written out
             if sq[0] == "sel" and sq[3] is None and sq[1][0] == "name":
-                n = sq[1][1].lower()
-                return n not in cte_names and n not in self.views and not self.cache.get(n) and n in BASE["tables"]
-            return False
-        if star_over_uncached(q["main"]):
-            return SIG_STAR
-        return None
+                cs = from_cols(sq[1], depth)
+                if cs:
+                    sq = ("sel", sq[1], sq[2], [(("col", c), c) for c in cs], sq[4])
+            return sq_sql(sq).lower()
+        if q["ctes"] or any(self.views[n]["embedded"] for n in real_view_refs):
+            cands.append(SIG_DUPCTE)        # accepted only together with DuckDB's `Duplicate CTE name`
+        aliases = [a.lower() for a in (([a for _, a in q["main"][3]] if q["main"][0] == "sel" and q["main"][3] else []) +
+                                       ([a for _, a in q["main"][3]] + [a for _, _, a in q["main"][4]] if q["main"][0] == "agg" else []))]
+        if any(a in cte_names for a in aliases):
+            cands.append(SIG_ALIAS)
+        names_real = [n for n in refs if n not in cte_names and n not in self.views and n in BASE["tables"]]
+        if self.cache and names_real and (unresolved(q["main"]) or any(unresolved(b, len(order) - k) for k, (_, b) in enumerate(q["ctes"]))):
+            cands.append(SIG_UNRESOLVED)
+        # `SELECT *` whose source columns qualify cannot know (a real table the cache has not seen, directly or through `*`)
+        m = q["main"]
+        if m[0] == "sel" and m[3] is None and m[1][0] in ("name", "sub") and from_cols(m[1]) is None and names_real:
+            cands.append(SIG_STAR)
+        out = []
+        for c in cands:
+            if c not in out:
+                out.append(c)
+        return out
 
     def embedded_of(self, q):
         cte_names = {n.lower() for n, _ in q["ctes"]}
@@ -496,8 +511,22 @@ class HGen:
     def hsig(hd):
         return hd["taint"] or (SIG_STAR if hd["star"] else None)
 
-    def push(self, cols, embedded=(), star=False, taint=None, ok=True):
-        self.heap.append({"cols": cols, "ok": ok and cols is not None, "embedded": set(embedded), "star": star, "taint": taint})
+    def push(self, cols, embedded=(), star=False, taint=None, ok=True, reads=()):
+        self.heap.append({"cols": cols, "ok": ok and cols is not None, "embedded": set(embedded), "star": star, "taint": taint,
+                          "reads": set(reads)})
+
+    def reads_of(self, q):
+        cte_names = {n.lower() for n, _ in q["ctes"]}
+        refs = [n.lower() for _, b in q["ctes"] for n in sq_names(b)] + [n.lower() for n in sq_names(q["main"])]
+        out = set()
+        for n in refs:
+            if n in cte_names:
+                continue
+            if n in self.views:
+                out |= self.views[n]["reads"]
+            elif n in BASE["tables"]:
+                out.add(n)
+        return out
 
     def step(self):
         r = self.r
@@ -514,7 +543,8 @@ class HGen:
             h = r.choice(recent) if recent and r.random() < 0.5 else r.choice(live)
             hd = self.heap[h]
             sig = hd["taint"] or (SIG_STAR if hd["star"] else None)
-            self.views[key] = {"cols": dict(hd["cols"]), "embedded": set(hd["embedded"]), "star": hd["star"], "taint": sig}
+            self.views[key] = {"cols": dict(hd["cols"]), "embedded": set(hd["embedded"]), "star": hd["star"], "taint": sig,
+                               "reads": set(hd["reads"])}
             if not hd["star"] and key not in self.cache:
                 self.cache[key] = list(hd["cols"])
             if hd["star"] and key in self.cache and not hd["taint"]:
@@ -527,11 +557,12 @@ class HGen:
             if g is None:
                 return
             q, out = g
-            sig = self.classify_sql(q)
+            sigs = self.classify_sql(q)
+            sig = next((x for x in sigs if x not in (SIG_DUPCTE, SIG_ALIAS)), None)
             text = query_sql(q)
-            star = q["main"][0] == "sel" and q["main"][3] is None and sig == SIG_STAR
-            self.emit(["sql", text], f"(SSql {query_coq(q)})", "sql", sig, f"session.sql({text!r})")
-            self.push(out, self.embedded_of(q), star=star, taint=sig if sig != SIG_STAR else None)
+            star = SIG_STAR in sigs
+            self.emit(["sql", text], f"(SSql {query_coq(q)})", "sql", sig, f"session.sql({text!r})", sigs)
+            self.push(out, self.embedded_of(q), star=star, taint=sig if sig != SIG_STAR else None, reads=self.reads_of(q))
             return
         if k < 0.74:
             cand = list(self.views) * 4 + ["bt", "zz"]
@@ -539,10 +570,10 @@ class HGen:
             name = self.spell(key) if key in VARIANTS else key
             if key in self.views:
                 v = self.views[key]
-                self.push(dict(v["cols"]), v["embedded"], star=v["star"], taint=v["taint"])
+                self.push(dict(v["cols"]), v["embedded"], star=v["star"], taint=v["taint"], reads=v["reads"])
                 sig = self.hsig(v)
             elif key == "bt":
-                self.push(dict(zip(BASE["tables"]["bt"]["cols"], BASE["tables"]["bt"]["types"])))
+                self.push(dict(zip(BASE["tables"]["bt"]["cols"], BASE["tables"]["bt"]["types"])), reads={"bt"})
                 self.cache.setdefault("bt", list(BASE["tables"]["bt"]["cols"]))
                 sig = None
             else:
@@ -557,7 +588,7 @@ class HGen:
             e = self.eg.bool_e(hd["cols"], 1)
             self.emit(["where", h, e_sql(e)], f"(SWhere {natlit(h)} {rel.e_coq(e)})", "where", self.hsig(hd),
                       f"heap[{h}].where({e_sql(e)!r})")
-            self.push(dict(hd["cols"]), hd["embedded"], star=hd["star"], taint=hd["taint"])
+            self.push(dict(hd["cols"]), hd["embedded"], star=hd["star"], taint=hd["taint"], reads=hd["reads"])
             return
         if k < 0.92 and live:
             # join back: a derived frame with an earlier one on a shared int column
@@ -581,17 +612,19 @@ class HGen:
                 (SIG_STAR if self.heap[h1]["star"] or self.heap[h2]["star"] else None)
             self.emit(["joinb", h1, h2, kcol, rc],
                       f"(SJoinB {natlit(h1)} {natlit(h2)} {strlit(kcol)} {listlit([strlit(c) for c in rc])})", "joinb", sig,
-                      f"heap[{h1}].join(heap[{h2}].select({kcol!r}, others AS <c>_r), on={kcol!r})")
-            self.push(out, self.heap[h1]["embedded"] | self.heap[h2]["embedded"], taint=sig)
+                      f"heap[{h1}].join(heap[{h2}].select({kcol!r}, others AS <c>_r), on={kcol!r})",
+                      ([sig] if sig else []) + ([SIG_DUPCTE] if self.heap[h1]["embedded"] or self.heap[h2]["embedded"] else []))
+            self.push(out, self.heap[h1]["embedded"] | self.heap[h2]["embedded"], taint=sig,
+                      reads=self.heap[h1]["reads"] | self.heap[h2]["reads"])
             return
         h = r.randrange(len(self.heap))
         hd = self.heap[h]
         self.emit(["obs", h], f"(SObs {natlit(h)})", "obs", self.hsig(hd), f"heap[{h}].collect()")
 
-    def emit(self, wstep, cstep, kind, sig, text):
+    def emit(self, wstep, cstep, kind, sig, text, sigs=None):
         self.steps.append(wstep)
         self.csteps.append(cstep)
-        self.meta.append({"kind": kind, "sig": sig, "text": text})
+        self.meta.append({"kind": kind, "sig": sig, "sigs": list(sigs) if sigs is not None else ([sig] if sig else []), "text": text})
 
     def history(self):
         self.new()
@@ -622,6 +655,11 @@ CORPUS = [
     [("reg", "v", 0), ("sqlq", {"ctes": [], "main": ("sel", ("name", "bt"), [], [(("col", "a"), "a")], False)})],
     [("reg", "v", 0), ("sqlq", {"ctes": [("c1", ("sel", ("name", "v"), [], [(("col", "a"), "a")], False))],
                                 "main": ("sel", ("name", "v"), [], [(("col", "a"), "a")], False)})],
+    [("sqlq", {"ctes": [], "main": ("sel", ("name", "bt"), [("bin", "Gt", ("col", "q"), ("lit", 6))], [(("col", "a"), "a")], False)}),
+     ("reg", "bt", 5), ("table", "BT"),
+     ("sqlq", {"ctes": [], "main": ("sel", ("name", "bt"), [], [(("col", "a"), "a")], False)})],
+    [("reg", "v", 0), ("sqlq", {"ctes": [("c2", ("sel", ("name", "v"), [], [(("col", "a"), "a")], False))],
+                                "main": ("sel", ("name", "c2"), [], [(("col", "a"), "c2")], False)})],
     [("reg", "v", 0), ("reg", "v", 1), ("sqlq", {"ctes": [], "main": ("sel", ("name", "v"), [], None, False)}),
      ("sqlq", {"ctes": [], "main": ("sel", ("name", "v"), [], [(("col", "a"), "a"), (("col", "s"), "s")], False)})],
 ]
@@ -637,7 +675,8 @@ def corpus_history(desc):
             key = name.lower()
             hd = g.heap[h]
             sig = hd["taint"] or (SIG_STAR if hd["star"] else None)
-            g.views[key] = {"cols": dict(hd["cols"]), "embedded": set(hd["embedded"]), "star": hd["star"], "taint": sig}
+            g.views[key] = {"cols": dict(hd["cols"]), "embedded": set(hd["embedded"]), "star": hd["star"], "taint": sig,
+                            "reads": set(hd["reads"])}
             if not hd["star"] and key not in g.cache:
                 g.cache[key] = list(hd["cols"])
             g.emit(["reg", name, h], f"(SReg {strlit(name)} {natlit(h)})", "reg", sig, f"heap[{h}].createOrReplaceTempView({name!r})")
@@ -645,23 +684,25 @@ def corpus_history(desc):
             key = d[1].lower()
             v = g.views.get(key)
             if v:
-                g.push(dict(v["cols"]), v["embedded"], star=v["star"], taint=v["taint"])
+                g.push(dict(v["cols"]), v["embedded"], star=v["star"], taint=v["taint"], reads=v["reads"])
             else:
-                g.push(dict(zip(BASE["tables"]["bt"]["cols"], BASE["tables"]["bt"]["types"])) if key == "bt" else None)
+                g.push(dict(zip(BASE["tables"]["bt"]["cols"], BASE["tables"]["bt"]["types"])) if key == "bt" else None,
+                       reads={"bt"} if key == "bt" else ())
             g.emit(["table", d[1]], f"(STable {strlit(d[1])})", "table", v["taint"] if v else None, f"session.table({d[1]!r})")
         elif d[0] == "sqlq":
             q = d[1]
-            sig = g.classify_sql(q)
+            sigs = g.classify_sql(q)
+            sig = next((x for x in sigs if x not in (SIG_DUPCTE, SIG_ALIAS)), None)
             text = query_sql(q)
             out = out_cols_of(q, g)
-            star = q["main"][0] == "sel" and q["main"][3] is None and sig == SIG_STAR
-            g.emit(["sql", text], f"(SSql {query_coq(q)})", "sql", sig, f"session.sql({text!r})")
-            g.push(out, g.embedded_of(q), star=star, taint=sig if sig != SIG_STAR else None)
+            star = SIG_STAR in sigs
+            g.emit(["sql", text], f"(SSql {query_coq(q)})", "sql", sig, f"session.sql({text!r})", sigs)
+            g.push(out, g.embedded_of(q), star=star, taint=sig if sig != SIG_STAR else None, reads=g.reads_of(q))
         elif d[0] == "where":
             _, h, e = d
             hd = g.heap[h]
             g.emit(["where", h, e_sql(e)], f"(SWhere {natlit(h)} {rel.e_coq(e)})", "where", hd["taint"], f"heap[{h}].where({e_sql(e)!r})")
-            g.push(dict(hd["cols"]), hd["embedded"], star=hd["star"], taint=hd["taint"])
+            g.push(dict(hd["cols"]), hd["embedded"], star=hd["star"], taint=hd["taint"], reads=hd["reads"])
         elif d[0] == "joinb":
             _, h1, h2, kcol, rc = d
             c1 = g.heap[h1]["cols"]
@@ -670,7 +711,7 @@ def corpus_history(desc):
             g.emit(["joinb", h1, h2, kcol, rc],
                    f"(SJoinB {natlit(h1)} {natlit(h2)} {strlit(kcol)} {listlit([strlit(c) for c in rc])})", "joinb", sig,
                    f"heap[{h1}].join(heap[{h2}] renamed, on={kcol!r})")
-            g.push(out, g.heap[h1]["embedded"] | g.heap[h2]["embedded"], taint=sig)
+            g.push(out, g.heap[h1]["embedded"] | g.heap[h2]["embedded"], taint=sig, reads=g.heap[h1]["reads"] | g.heap[h2]["reads"])
         elif d[0] == "obs":
             hd = g.heap[d[1]]
             g.emit(["obs", d[1]], f"(SObs {natlit(d[1])})", "obs", hd["taint"], f"heap[{d[1]}].collect()")
@@ -787,14 +828,14 @@ def run(ctx: core.Ctx):
     model_fail, engine_fail, thm_fail = [], [], []
     nbase = len(BASE["frames"])
     for (h, r), it, v in zip(kept, items, verdicts):
-        if v is None or len(v) != 5 * len(h["steps"]):
+        if v is None or len(v) != 6 * len(h["steps"]):
             continue
         hist_len[len(h["steps"])] = hist_len.get(len(h["steps"]), 0) + 1
         nontriv_h = False
         dead = set()          # handles whose defining query the engine itself rejects (or that were never created)
         nheap = nbase
         for i, (st, m, o) in enumerate(zip(h["steps"], h["meta"], r)):
-            im, isp, ms, dom, es = (ch == "1" for ch in v[5 * i: 5 * i + 5])
+            im, isp, ms, dom, es, ax = (ch == "1" for ch in v[6 * i: 6 * i + 6])
             used = {"reg": [st[2]] if m["kind"] == "reg" else [], "where": [st[1]] if m["kind"] == "where" else [],
                     "joinb": [st[1], st[2]] if m["kind"] == "joinb" else [], "obs": [st[1]] if m["kind"] == "obs" else []}[m["kind"]] \
                 if m["kind"] in ("reg", "where", "joinb", "obs") else []
@@ -821,7 +862,7 @@ def run(ctx: core.Ctx):
             same_engine = short_cmp(o["impl"], o["oracle"])
             desc = {"history": [x["text"] for x in h["meta"][: i + 1]], "failing_step": i, "step": m["text"],
                     "impl": short(o["impl"]), "engine_oracle": short(o["oracle"]),
-                    "verdict(impl=model,impl=spec,model=spec,in_domain,engine=spec)": v[5 * i: 5 * i + 5],
+                    "verdict(impl=model,impl=spec,model=spec,in_domain,engine=spec,alias_exact)": v[6 * i: 6 * i + 6],
                     "worker_steps": h["steps"][: i + 1], "coq_case": it if len(it) < 6000 else it[:6000] + "..."}
             if not es:
                 engine_fail.append(desc)
@@ -829,16 +870,17 @@ def run(ctx: core.Ctx):
                 n_dev += 1
                 # a deviation carries the signature of a known finding only if the history has that finding's shape AND
                 # the faithful Coq model reproduces what the implementation did
-                if m["sig"] == SIG_DUPCTE and "Duplicate CTE name" in o["impl"].get("msg", ""):
-                    sig = SIG_DUPCTE      # crc32 CTE names are not part of the model; judged by the exception itself
-                elif m["sig"] and m["sig"] != SIG_DUPCTE and im:
-                    sig = m["sig"]
-                else:
+                sig = None
+                for cand in m["sigs"]:
+                    if accepted(cand, im, o):
+                        sig = cand
+                        break
+                if sig is None:
                     sig = "C13/unexplained:" + m["kind"] + ":" + (o["impl"].get("err") or "result-differs") + \
-                          (":shape=" + m["sig"].split("/")[1][:24] if m["sig"] else "")
+                          (":shape=" + m["sigs"][0].split("/")[1][:24] if m["sigs"] else "")
                 hist_sig[sig] = hist_sig.get(sig, 0) + 1
                 ctx.deviation(sig, what_of(sig, o), desc)
-            elif not im:
+            elif not im and ax:
                 model_fail.append(desc)
             if dom and not ms:
                 thm_fail.append(desc)
@@ -881,6 +923,22 @@ def run(ctx: core.Ctx):
                     "that engine answer is the property's oracle"]
 
 
+def accepted(sig, impl_equals_model, o) -> bool:
+    """a deviation carries a known finding's signature only if the step has that finding's shape (the candidates) AND the
+    faithful Coq model reproduces what the implementation did; three findings live below the model's abstraction
+    (crc32 CTE names, table aliases) and are judged by their unmistakable symptom instead"""
+    msg = o["impl"].get("msg", "")
+    if sig == SIG_DUPCTE:
+        return "Duplicate CTE name" in msg
+    if sig == SIG_SELFREF:
+        return "Circular reference" in msg
+    if sig == SIG_ALIAS:
+        a, b = o["impl"], o["oracle"]
+        return ("cols" in a and "cols" in b and len(a["cols"]) == len(b["cols"]) and a["cols"] != b["cols"]
+                and all(x == y or re.fullmatch(r"t\d+", x) for x, y in zip(a["cols"], b["cols"])))
+    return impl_equals_model
+
+
 def short_cmp(a, b) -> bool:
     if ("err" in a) != ("err" in b):
         return False
@@ -904,6 +962,13 @@ def what_of(sig, o):
         return ("once any temp view is registered (or a failed table lookup happened) the schema cache is non-empty and "
                 "sqlglot's qualify can no longer resolve an unqualified column over a real table the cache has not seen: "
                 "session.sql('select a from real_table') raises OptimizeError although the engine answers the query")
+    if sig == SIG_SELFREF:
+        return ("a temp view that shadows a real table and whose definition reads that table (e.g. a filtered copy registered "
+                "under the table's name): a query naming the view with the same alias as the reference inside the view's own "
+                "CTE makes the splice rewrite that inner reference too -- DuckDB reports a circular CTE reference")
+    if sig == SIG_ALIAS:
+        return ("a column alias of the main SELECT that equals the name of a CTE of the same query is renamed together with the "
+                "CTE when the user's CTE names are replaced by crc32 names: the result column is called t<digits>")
     if sig == SIG_DUPCTE:
         return ("two SELECTs of one query with the same text (two CTE bodies, or a CTE body and the main SELECT) get the same "
                 "crc32 CTE name when the frame is frozen / emitted: DuckDB rejects the SQL with `Duplicate CTE name`")
